@@ -78,6 +78,11 @@ def gen_case(seed, tier):
     if rng.random() < 0.5 and "CNAME" not in types:
         types.append("CNAME")
     base = Z.base_load(rng, rng.choice([0, 3, 8]), names, types)
+    # bystander names the history does not address: they make the B-tree zone's node map several nodes
+    # deep (at branching factor 3), so that the history's own inserts and deletes split, steal and merge
+    # next to nodes that an older version or the published zone still shares
+    for i in range(rng.choice([0, 0, 9, 22])):
+        base.append({"o": "add", "n": f"{'abcdefghijklmnopqrstuvwxyz'[i]}{i:02d}", "nf": "rel", "f": "rdataset", "t": "A", "ttl": 300, "rd": ["10.0.0.1"]})
     txns = []
     for _ in range(rng.choice([1, 2, 2, 3, 4] if big else [1, 2, 2, 3])):
         nops = rng.choice([0, 1, 2, 3, 4, 6, 10] if big else [0, 1, 2, 3, 4, 6])
